@@ -171,6 +171,26 @@ func randTimestamp(r *rng) string {
 	if r.chance(1, 30) {
 		sec = 60
 	}
+	offH, offM := -1, -1
+	if r.chance(1, 7) {
+		// exactly one field on, or one step outside, a limit of its range
+		switch r.intn(7) {
+		case 0:
+			month = pick(r, []int{0, 1, 12, 13})
+		case 1:
+			day = pick(r, []int{0, 1, 28, 29, 30, 31, 32})
+		case 2:
+			hour = pick(r, []int{0, 23, 24})
+		case 3:
+			min = pick(r, []int{0, 59, 60})
+		case 4:
+			sec = pick(r, []int{0, 59, 60, 61})
+		case 5:
+			offH = pick(r, []int{0, 23, 24, 99})
+		case 6:
+			offM = pick(r, []int{0, 59, 60})
+		}
+	}
 	s := fmt.Sprintf("%04d-%02d-%02d", year, month, day)
 	if r.chance(1, 12) {
 		s += "t"
@@ -185,6 +205,9 @@ func randTimestamp(r *rng) string {
 	s += fmt.Sprintf(":%02d:%02d", min, sec)
 	if r.chance(1, 2) {
 		n := 1 + r.intn(9)
+		if r.chance(1, 12) {
+			n = pick(r, []int{0, 1, 9, 10, 12}) // no digit after the point; more digits than nanoseconds
+		}
 		s += "."
 		for i := 0; i < n; i++ {
 			s += string(rune('0' + r.intn(10)))
@@ -201,7 +224,14 @@ func randTimestamp(r *rng) string {
 			sign = "-"
 		}
 		oh := pick(r, []int{0, 1, 5, 12, 14, 23, 24, 99, r.intn(100)})
-		s += fmt.Sprintf("%s%02d:%02d", sign, oh, r.intn(60))
+		om := r.intn(60)
+		if offH >= 0 {
+			oh = offH
+		}
+		if offM >= 0 {
+			om = offM
+		}
+		s += fmt.Sprintf("%s%02d:%02d", sign, oh, om)
 	}
 	return s
 }
@@ -314,6 +344,24 @@ func (g *gen) accessorUnit(id string) *UnitCase {
 	return c
 }
 
+// keyAccessorUnit: a key list (0 to 40 keys, with duplicates and the empty string) probed through the
+// exported key accessors with keys in it, next to it, removed from it and never in it.
+func (g *gen) keyAccessorUnit(id string) *UnitCase {
+	r := g.r
+	n := pick(r, []int{0, 1, 1, 2, 3, 5, 9, 17, 40})
+	vals := []string{}
+	for i := 0; i < n; i++ {
+		if r.chance(1, 3) {
+			vals = append(vals, pick(r, keyPool))
+		} else {
+			vals = append(vals, fmt.Sprintf("k%d", r.intn(n+3)))
+		}
+	}
+	probe := pick(r, append([]string{"", "added-later", "absent", "k0", "k1"}, vals...))
+	return &UnitCase{ID: id, Kind: "keyaccessor", Which: pick(r, []string{"target", "ctarget", "inc", "exc", "segtarget"}),
+		Mode: pick(r, []string{"plain", "pre", "pre", "pre2", "premut", "premutpre"}), Vals: vals, Probe: probe, Nil: r.chance(1, 25)}
+}
+
 func (g *gen) preprocessUnit(id string) *UnitCase {
 	if g.r.chance(1, 3) {
 		s := g.segment("s", segKeyPool)
@@ -331,7 +379,7 @@ type unitStream struct {
 
 // runUnitStreams runs unit streams for a property and reports disagreements as violations.
 // hookUnitKinds: unit streams that call the real code through a hook of /repo (build tag verif).
-var hookUnitKinds = map[string]bool{"bucket": true, "buffer": true, "hex": true, "clause": true, "preprocess": true}
+var hookUnitKinds = map[string]bool{"bucket": true, "buffer": true, "hex": true, "clause": true, "preprocess": true, "keyaccessor": true}
 
 // skippedHookStreams: streams not run because the hooks do not compile (fallback build).
 var skippedHookStreams []string
